@@ -295,6 +295,10 @@ def tables(run: Run):
 
 def run(run: Run):
     stage1(run)
+    # references into other modules are rendered by Address.__str__ (first component = the name bound by the import line): the contracts of
+    # Address.module_alias / python_import / __str__ / imp.Import.__str__ are those of C12 and are proved here as well
+    from props import C12
+    C12.stage1(run)
     tables(run)
     field_region(run)
     enum_region(run)
